@@ -353,7 +353,7 @@ func exactTriple(d *fileDesc, mid int, s *mcap.Schema, c *mcap.Channel, m *mcap.
 }
 
 // infoEvent calls Reader.Info and fetches every indexed attachment and metadata record.
-func infoEvent(d *fileDesc) (e wl.Ev) { return infoEventOn(d, nil) }
+func infoEvent(d *fileDesc) (e wl.Ev) { return infoEventOn(d, nil, true) }
 
 // sessionEvents performs a sequence of complete operations on ONE Reader (the sessions are exported by TLC from
 // ReaderSession.tla): Info (without fetching records, so that the stream stays on a record boundary) and drained reads.
@@ -373,7 +373,10 @@ func sessionEvents(d *fileDesc, ops []string, r *rand.Rand, sid int) []wl.Ev {
 		var e wl.Ev
 		switch op {
 		case "info":
-			e = infoEventOn(d, reader)
+			e = infoEventOn(d, reader, false)
+		case "access":
+			// Info, then every indexed attachment and metadata record fetched from the location its entry gives
+			e = infoEventOn(d, reader, true)
 		case "default":
 			rs := readSpec{Mode: "default"}
 			if filt != nil && (sid+k)%2 == 0 { // every second one with the session's topic set / window
@@ -489,7 +492,7 @@ func infoExact(d *fileDesc, info *mcap.Info) map[string]any {
 	return out
 }
 
-func infoEventOn(d *fileDesc, shared *mcap.Reader) (e wl.Ev) {
+func infoEventOn(d *fileDesc, shared *mcap.Reader, fetch bool) (e wl.Ev) {
 	e = wl.Ev{"ev": "Info", "ret": "ok", "nChannels": 0, "nSchemas": 0, "nChunkIdx": 0, "nAttIdx": 0, "nMdIdx": 0, "attOK": 0, "mdOK": 0, "hasStats": false, "msgs": 0, "why": "",
 		"xChannels": 0, "xSchemas": 0, "xChunkIdx": 0, "xAttIdx": 0, "xMdIdx": 0, "xStats": true}
 	defer func() {
@@ -523,7 +526,7 @@ func infoEventOn(d *fileDesc, shared *mcap.Reader) (e wl.Ev) {
 	for k, v := range ex {
 		e[k] = v
 	}
-	if shared != nil { // inside a session the records are not fetched: the counts are what is judged
+	if !fetch { // a plain Info inside a session: the records are not fetched, the counts are what is judged
 		e["attOK"], e["mdOK"] = len(info.AttachmentIndexes), len(info.MetadataIndexes)
 		return e
 	}
